@@ -166,6 +166,11 @@ func oracleC09(c *props.Case) (verdict props.Verdict) {
 				if l.Class == "save" {
 					cand = append(cand, i)
 				}
+			case "echo":
+				// the query for the exit status of a change command
+				if l.Text == "echo $?" && i > 0 && oc.Lines[i-1].Class == "change" {
+					cand = append(cand, i)
+				}
 			case "retrieve":
 				// the step that fetches the configuration
 				switch l.Text {
